@@ -475,7 +475,10 @@ func c05Worker(args []string) {
 	}
 	// raw headers with empty ranges, trailing separators and parameters without values
 	specials := []string{restful.MIME_JSON + ",", "," + restful.MIME_XML, restful.MIME_JSON + ",," + restful.MIME_XML, restful.MIME_XML + ";", restful.MIME_XML + ";q", restful.MIME_XML + ";q=",
-		restful.MIME_JSON + ";q=0.5," + restful.MIME_XML + ",", "*/*,", " , "}
+		restful.MIME_JSON + ";q=0.5," + restful.MIME_XML + ",", "*/*,", " , ",
+		// an unparsable q on a type no list produces (however it is weighted, it cannot be chosen),
+		// in front of well-formed ranges
+		restful.MIME_XML + ";q=0.5, text/html;q=high, " + restful.MIME_JSON, "*/*;q=0.1, image/png;q=1.0.0, " + restful.MIME_XML, "text/html;q=, " + restful.MIME_JSON + ";q=0.5, " + restful.MIME_XML}
 	// (a repeated q parameter and an unparsable q value are not decided by the property: not explored)
 	for _, produces := range c05ProducesLists(vnd) {
 		for _, accept := range specials {
